@@ -741,3 +741,157 @@ Proof.
       by (symmetry; apply Z.leb_le; lia).
     simpl. destruct (err_code (rc_tm (w_r w)) =? 0)%Z; reflexivity.
 Qed.
+
+(* ------------------------------------------------------------------------------------------ *)
+(* coverage: nothing the sender has transmitted is ever forgotten                               *)
+(* ------------------------------------------------------------------------------------------ *)
+
+Definition cov (s : sender) (o : nat) : bool :=
+  covered o (sd_acked s) || covered o (map snd (sd_inflight s)) || covered o (sd_retx s).
+
+Definition has_fin (l : list seg) : bool := existsb s_fin l.
+
+(* every offset below max_sent_offset lies in an acknowledged, an in-flight or a pending
+   (retransmission queue) range; no range reaches beyond max_sent_offset; and once the fin has been
+   sent some range in one of the three sets still carries it *)
+Record Coverage (s : sender) : Prop := mkCov {
+  cv_all : forall o, o < sd_next_off s -> cov s o = true;
+  cv_acked : Forall (fun sg => seg_end sg <= sd_next_off s) (sd_acked s);
+  cv_fin : sd_fin_sent s = true ->
+           has_fin (sd_acked s) || has_fin (map snd (sd_inflight s)) || has_fin (sd_retx s) = true
+}.
+
+Lemma covered_app : forall o l1 l2, covered o (l1 ++ l2) = covered o l1 || covered o l2.
+Proof. intros. unfold covered. apply existsb_app. Qed.
+
+Lemma take_pn_some : forall pn l sg rest, take_pn pn l = (Some sg, rest) ->
+  (forall o, covered o (map snd l) = covers o sg || covered o (map snd rest)) /\
+  has_fin (map snd l) = s_fin sg || has_fin (map snd rest).
+Proof.
+  induction l as [|[q g] t IH]; intros sg rest H; simpl in H; [discriminate|].
+  destruct (N.eqb_spec q pn).
+  - injection H as <- <-. split; reflexivity.
+  - destruct (take_pn pn t) as [r t'] eqn:E. injection H as -> <-.
+    destruct (IH _ _ eq_refl) as [A B]. split.
+    + intros o. simpl. rewrite A. destruct (covers o g), (covers o sg); reflexivity.
+    + simpl. rewrite B. destruct (s_fin g), (s_fin sg); reflexivity.
+Qed.
+
+Lemma take_pn_none : forall pn l rest, take_pn pn l = (None, rest) -> rest = l.
+Proof.
+  induction l as [|[q g] t IH]; intros rest H; simpl in H.
+  - injection H as <-. reflexivity.
+  - destruct (N.eqb_spec q pn); [discriminate|].
+    destruct (take_pn pn t) as [r t'] eqn:E. injection H as -> <-. f_equal. apply IH. reflexivity.
+Qed.
+
+Lemma ack_all_cov : forall pns infl acked infl' acked',
+  ack_all pns infl acked = (infl', acked') ->
+  (forall o, covered o acked' || covered o (map snd infl') = covered o acked || covered o (map snd infl)) /\
+  has_fin acked' || has_fin (map snd infl') = has_fin acked || has_fin (map snd infl) /\
+  (forall P : seg -> Prop, Forall P acked -> Forall P (map snd infl) -> Forall P acked').
+Proof.
+  induction pns as [|pn t IH]; intros infl acked infl' acked' H; simpl in H.
+  - injection H as <- <-. repeat split; auto.
+  - destruct (take_pn pn infl) as [[sg|] rest] eqn:E.
+    + destruct (take_pn_some _ _ _ _ E) as [A B].
+      destruct (IH _ _ _ _ H) as (C & D & F). repeat split.
+      * intros o. rewrite C. simpl. rewrite A.
+        destruct (covers o sg), (covered o acked), (covered o (map snd rest)); reflexivity.
+      * rewrite D. simpl. rewrite B.
+        destruct (s_fin sg), (has_fin acked), (has_fin (map snd rest)); reflexivity.
+      * intros P Pa Pi. apply F.
+        -- constructor; auto. rewrite Forall_forall in Pi. apply Pi.
+           apply (proj1 (take_pn_spec _ _ _ _ E)). reflexivity.
+        -- rewrite Forall_forall in *. intros x Hx. apply Pi. apply (proj2 (take_pn_spec _ _ _ _ E)). exact Hx.
+    + apply take_pn_none in E. subst. apply IH. exact H.
+Qed.
+
+Lemma Coverage_init : forall c, Coverage (w_s (init c)).
+Proof. intros. constructor; simpl; intros; try lia; try discriminate; constructor. Qed.
+
+Lemma orb3_l : forall a b c a', (a = true -> a' = true) -> a || b || c = true -> a' || b || c = true.
+Proof. intros [] [] [] [] H; simpl; auto. Qed.
+
+Lemma Coverage_step : forall w e, Inv w -> Coverage (w_s w) -> Coverage (w_s (step w e)).
+Proof.
+  intros w e I [Ca Ck Cf]. unfold cov in Ca. destruct e; simpl; rewrite ?emit_s.
+  - (* AppWrite *) unfold s_write. destruct (sd_closed (w_s w) || negb (tm_live (sd_tm (w_s w)))); constructor; auto.
+  - (* AppShutdown *) unfold s_shutdown. destruct (negb _); constructor; auto.
+  - (* Transmit *)
+    destruct (s_transmit (w_s w) k) as [s' op] eqn:E. simpl.
+    destruct (s_transmit_cases _ _ _ _ E) as [[-> _]|(len & fin & _ & _ & _ & _ & ->)];
+      [constructor; auto|].
+    constructor; unfold cov in *; simpl.
+    + intros o Ho. destruct (Nat.lt_ge_cases o (sd_next_off (w_s w))) as [L|G].
+      * specialize (Ca o L). destruct (covered o (sd_acked (w_s w))); simpl in *; auto.
+        destruct (covers o _); simpl; auto.
+      * replace (covers o {| s_off := sd_next_off (w_s w); s_len := len; s_fin := fin |}) with true.
+        { destruct (covered o (sd_acked (w_s w))); reflexivity. }
+        symmetry. unfold covers; simpl. apply andb_true_intro. split; [apply Nat.leb_le | apply Nat.ltb_lt]; lia.
+    + eapply Forall_impl; [|exact Ck]. simpl. intros. lia.
+    + intros F. apply orb_prop in F. destruct F as [F|F].
+      * specialize (Cf F). destruct (has_fin (sd_acked (w_s w))); simpl in *; auto.
+        destruct fin; simpl; auto.
+      * subst fin. destruct (has_fin (sd_acked (w_s w))); reflexivity.
+  - (* Retransmit *)
+    unfold s_retransmit. destruct (negb _); simpl; [constructor; auto|].
+    destruct (sd_retx (w_s w)) as [|sg rest] eqn:R; simpl; [constructor; unfold cov; simpl; rewrite ?R; auto|].
+    constructor; unfold cov in *; simpl; auto.
+    + intros o Ho. specialize (Ca o Ho). simpl in Ca.
+      destruct (covered o (sd_acked (w_s w))), (covers o sg), (covered o (map snd (sd_inflight (w_s w)))),
+        (covered o rest); auto.
+    + intros F. specialize (Cf F). simpl in Cf.
+      destruct (has_fin (sd_acked (w_s w))), (s_fin sg), (has_fin (map snd (sd_inflight (w_s w)))),
+        (has_fin rest); auto.
+  - (* Lose *)
+    unfold s_lose. destruct (negb _); simpl; [constructor; auto|].
+    destruct (take_pn pn (sd_inflight (w_s w))) as [[sg|] rest] eqn:E; simpl; [|constructor; auto].
+    destruct (take_pn_some _ _ _ _ E) as [A B].
+    constructor; unfold cov in *; simpl; auto.
+    + intros o Ho. specialize (Ca o Ho). rewrite A in Ca. rewrite covered_app. simpl.
+      destruct (covered o (sd_acked (w_s w))), (covers o sg), (covered o (map snd rest)),
+        (covered o (sd_retx (w_s w))); auto.
+    + intros F. specialize (Cf F). rewrite B in Cf. unfold has_fin in *. rewrite existsb_app. simpl.
+      destruct (existsb s_fin (sd_acked (w_s w))), (s_fin sg), (existsb s_fin (map snd rest)),
+        (existsb s_fin (sd_retx (w_s w))); auto.
+  - (* Cwnd *) constructor; auto.
+  - (* Deliver *) destruct (nth_error _ _); constructor; auto.
+  - (* EmitAck *) destruct (_ && _); constructor; auto.
+  - (* DeliverAck *)
+    destruct (nth_error (w_ctl w) j) as [c|]; [|constructor; auto]. simpl.
+    unfold s_on_ctl. destruct (negb _); simpl; [constructor; auto|].
+    destruct (ack_all (fst c) (sd_inflight (w_s w)) (sd_acked (w_s w))) as [infl acked] eqn:E. simpl.
+    destruct (ack_all_cov _ _ _ _ _ E) as (A & B & F).
+    constructor; unfold cov in *; simpl; auto.
+    + intros o Ho. rewrite A. apply Ca. exact Ho.
+    + apply F; auto. pose proof (i_segs _ I) as Is. apply Forall_app_inv in Is. destruct Is as [Is _].
+      eapply Forall_impl; [|exact Is]. intros sg [Hs _]. exact Hs.
+    + intros G. rewrite B. apply Cf. exact G.
+  - (* DeliverReject *) destruct (_ && _); constructor; auto.
+  - (* AppRead *) constructor; auto.
+  - (* Tick *) constructor; auto.
+  - (* Vanish *) constructor; auto.
+  - (* ForgetSecret *) constructor; auto.
+Qed.
+
+Lemma Coverage_run_from : forall evs w, Inv w -> Coverage (w_s w) -> Coverage (w_s (run_from w evs)).
+Proof. induction evs; simpl; intros; auto. apply IHevs; auto using Inv_step, Coverage_step. Qed.
+
+(* acked, in-flight and pending-retransmission ranges cover everything sent; nothing lies beyond what
+   was sent, and what was sent lies within what was written *)
+Theorem dc_coverage : forall c evs, (0 < c_idle c)%N ->
+  let s := w_s (run c evs) in
+  (forall o, o < sd_next_off s -> cov s o = true) /\
+  Forall (fun sg => seg_end sg <= sd_next_off s) (sd_acked s ++ map snd (sd_inflight s) ++ sd_retx s) /\
+  sd_next_off s <= length (sd_data s) /\
+  (sd_fin_sent s = true ->
+   has_fin (sd_acked s) || has_fin (map snd (sd_inflight s)) || has_fin (sd_retx s) = true).
+Proof.
+  intros c evs Hi. cbv zeta.
+  pose proof (Inv_run c evs Hi) as I.
+  destruct (Coverage_run_from evs (init c) (Inv_init c Hi) (Coverage_init c)) as [A B C].
+  fold (run c evs) in *. repeat split; auto.
+  - apply Forall_app. split; auto. eapply Forall_impl; [|exact (i_segs _ I)]. intros sg [H _]. exact H.
+  - exact (i_off _ I).
+Qed.
